@@ -1109,18 +1109,23 @@ CallMethod(o, name, pos, named, m, line) ==
          ELSE IF name = "items" THEN
             (IF n # 0 THEN Arity(m, line) ELSE NewList(m, [i \in 1..Len(d.keys) |-> TupV(<<d.keys[i], d.vals[i]>>)]))
          ELSE IF name = "pop" THEN
+            \* (a mutating method fails on a frozen or iterated receiver whatever its arguments are and
+            \* whether or not it would change anything: the receiver is checked first)
             (IF n < 1 \/ n > 2 THEN Arity(m, line)
-             ELSE IF ~Hashable(pos[1], h) THEN R(Raise(m, "not_hashable", line), NoneV)
              ELSE LET m1 == CanMutate(m, o.a, line) j == DictFindIn(d.keys, pos[1], h) IN
                   IF ~Ok(m1) THEN R(m1, NoneV)
+                  ELSE IF ~Hashable(pos[1], h) THEN R(Raise(m, "not_hashable", line), NoneV)
                   ELSE IF j # 0 THEN R([m EXCEPT !.heap[o.a].keys = RemoveIdx(@, j), !.heap[o.a].vals = RemoveIdx(d.vals, j)], d.vals[j])
                   ELSE IF n = 2 THEN R(m, pos[2]) ELSE R(Raise(m, "key", line), NoneV))
          ELSE IF name = "setdefault" THEN
+            \* ("setdefault fails if the key is unhashable, or if the dictionary is frozen or has active
+            \* iterators" -- also when the key is present and nothing would change)
             (IF n < 1 \/ n > 2 THEN Arity(m, line)
+             ELSE IF ~Ok(CanMutate(m, o.a, line)) THEN R(CanMutate(m, o.a, line), NoneV)
              ELSE IF ~Hashable(pos[1], h) THEN R(Raise(m, "not_hashable", line), NoneV)
              ELSE LET j == DictFindIn(d.keys, pos[1], h) dv == IF n = 2 THEN pos[2] ELSE NoneV IN
                   IF j # 0 THEN R(m, d.vals[j])
-                  ELSE LET m1 == CanMutate(m, o.a, line) IN
+                  ELSE LET m1 == m IN
                        IF ~Ok(m1) THEN R(m1, NoneV)
                        ELSE R([m EXCEPT !.heap[o.a].keys = Append(@, pos[1]), !.heap[o.a].vals = Append(d.vals, dv)], dv))
          ELSE IF name = "update" THEN
@@ -1247,6 +1252,8 @@ CallMethod(o, name, pos, named, m, line) ==
              ELSE LET ps == IF pos[1].t = "str" THEN <<pos[1].s>> ELSE [q \in 1..Len(pos[1].v) |-> pos[1].v[q].s]
                       w == IF hi >= lo THEN SubSeq(o.s, lo + 1, hi) ELSE <<>> IN
                   IF lo > hi THEN Dom         \* an inverted window: the reference language has its own rule
+                  \* a window that starts beyond the end matches nothing, not even the empty string
+                  ELSE IF n >= 2 /\ pos[2].t = "int" /\ pos[2].v > Len(o.s) THEN R(m, BoolV(FALSE))
                   ELSE IF name = "startswith" THEN R(m, BoolV(\E q \in 1..Len(ps) : MatchAt(w, ps[q], 0)))
                   ELSE R(m, BoolV(\E q \in 1..Len(ps) : Len(ps[q]) <= Len(w) /\ MatchAt(w, ps[q], Len(w) - Len(ps[q])))))
          ELSE IF name \in {"find", "rfind", "index", "rindex", "count"} THEN
